@@ -771,6 +771,9 @@ class Program:
                 for ctx, form in rng.sample(pairs, 12 if quick else 60):
                     add(ctx, form, rng.randint(8, 40))
                 add("xvar_decl", "string", 12)
+            if pkg != "main" and not any(r_.get("ctx") == "xvar_decl" for r_ in rows):
+                # a -ldflags=-X target in a package other than main (its import path has dots and slashes)
+                add("xvar_decl", "string", 12)
             cells = make_cells(rows, rng, start_id=next_id)
             next_id += len(cells)
             for c in cells:
